@@ -1,4 +1,5 @@
 import Sml.Props.C08
+import Sml.Lemmas.C08Cut
 #print axioms Sml.C08.noise_then_frame
 #print axioms Sml.C08.noise_then_frame_state
 #print axioms Sml.C08.noise_then_frame_idle
@@ -6,3 +7,6 @@ import Sml.Props.C08
 #print axioms Sml.C08.cut_state_cap
 #print axioms Sml.C08.cut_payload_state
 #print axioms Sml.C08.cut_payload_then_frame
+#print axioms Sml.C08.cut_then_frame_idle
+#print axioms Sml.C08.noise_cut_then_frame
+#print axioms Sml.C08.noise_cut
